@@ -109,6 +109,24 @@ class TimerTable:
                          f"the per-peer {t} does not take precedence over the node default "
                          f"(expected `{loc[0]} = <peer>.{t} or {loc[0]}`)", rule=rule)
                 continue
+            # ... and what is compared is the configured value itself: nothing else re-binds the
+            # local (a clamp to the wake-up interval, a floor, a jitter, a scale factor would make
+            # the configured - in particular the per-peer - setting not the one that applies)
+            for x in A.walk_no_nested(self.f.node):
+                tg = []
+                if isinstance(x, (ast.Assign, ast.AnnAssign, ast.AugAssign)):
+                    tg = A.store_targets(x)
+                elif isinstance(x, ast.NamedExpr):
+                    tg = [x.target]
+                if any(isinstance(t_, ast.Name) and t_.id == loc[0] for t_ in tg) \
+                        and x is not c.get("peer_stmt") and x is not c.get("node_stmt"):
+                    ctx.fail(cons + "#as-configured", self.f.loc(x),
+                             f"`{ast.unparse(x)[:70]}` replaces the configured {t}: the deadline that is "
+                             f"compared is no longer `peer.{t} or node.{t}` - a per-peer (or node) setting "
+                             f"smaller or larger than the substituted value silently does not apply (no "
+                             f"DWR after the idle timeout, no close after the DWA timeout)", rule=rule,
+                             expected=f"{loc[0]} = self.{t}; {loc[0]} = peer.{t} or {loc[0]}",
+                             observed=ast.unparse(x)[:120])
             # the override happens whenever a peer is found
             st = [n for n in self.g.nodes if n.ast is c["peer_stmt"]]
             if st:
